@@ -21,13 +21,19 @@ RULE = "evaluation = one execution of a scenario (task body that starts, polls a
 
 def tune(plan, tier):
     plan.smoke_scenario = "c21_flat_scalar_u32"
+    plan.plain_pass_in_thorough = False
     if tier == "quick":
         plan.native_args = ["--depth", "9", "--max-exhaustive", "60000", "--random", "6000"]
     else:
         plan.native_args = ["--depth", "12", "--max-exhaustive", "400000", "--random", "120000"]
         plan.valgrind_args = ["--random", "400", "--max-exhaustive", "1500", "--depth", "7"]
         plan.asan_args = ["--random", "2000", "--max-exhaustive", "20000", "--depth", "8"]
+        # the runtime without async-spawn / inter-task-wakeup (own target directory)
+        plan.feature_passes = [{"tag": "plain", "features": [], "shards": 8, "args": ["--depth", "10", "--max-exhaustive", "100000", "--random", "40000"]}]
 
 
 def run(tier, seed, replay):
-    return rthost_check.run("C21", "c21", tier, seed, replay, RULE, tune=tune)
+    rep = rthost_check.run("C21", "c21", tier, seed, replay, RULE, tune=tune)
+    if replay is not None:
+        rthost_check.replay_floor(rep, FLOORS, tier)
+    return rep
